@@ -73,6 +73,6 @@ def sample(c, o):
     return {'prog': c['prog'], 'unrolled_len': len((o.get('unrolled') or {}).get('ops', []))}
 
 
-LEVEL_TEXT = 'see DESIGN.md C06'
-LEVEL_NOTE = 'see DESIGN.md section 9'
+LEVEL_TEXT = "Coq theorems over copy / extend / repeat / apply_modifiers of the Core model: the unrolled leaves are a permutation of content x product of enclosing counts; every count is 1 afterwards; applying again is the identity; each copy's first operations start at the latest end over the relation leaves preceding it; a flat block of duration T whose last-ending operation is a relation leaf occupies n*T; an extension is listed after everything that precedes it, hence the unrolled listing is the concatenation of the copies (for every program, not only library circuits). Library circuits are additionally checked through their extracted relation graph."
+LEVEL_NOTE = 'Trusted: Coq kernel, Core model tied by correspondence (random nested repetition programs + repetition-code circuits). Exact n-fold concatenation for nested content is proved relative to the copy; n*T is proved for flat blocks. No axioms.'
 TECHNIQUE = 'Coq proof over an executable model + correspondence evaluated by vm_compute'
